@@ -27,87 +27,7 @@ func init() {
 
 func runC10(c *report.Ctx) {
 	p := c.P
-	// ---- (1) sequence siblings ----------------------------------------------------------------------
-	c.Rule("sequence-siblings", "inputs spending a staking credit carry Sequence = script maturity, inputs spending a binding credit after warm-up carry the binding locked period; nothing overrides it before AddTxIn", 4)
-	txin := p.Type(pkgWire, "TxIn")
-	addTxInM := p.Fn(pkgWire, "MsgTx", "AddTxIn")
-	warm := p.Fn("github.com/massnetorg/mass-core/consensus/forks", "", "EnforceMASSIP0002WarmUp")
-	if txin == nil || addTxInM == nil || warm == nil {
-		c.Lost("wire.TxIn / MsgTx.AddTxIn / forks.EnforceMASSIP0002WarmUp")
-	} else {
-		sigs := map[string]string{}
-		for _, spec := range [][2]string{{"WalletManager", "addTxIn"}, {"WalletManager", "constructTxIn"}} {
-			f := fn(c, pkgWallet, spec[0], spec[1])
-			if f == nil {
-				continue
-			}
-			var staking, binding []ssa.Instruction
-			var sig []string
-			for _, st := range fieldStores(f, txin, "Sequence") {
-				sv := st.(*ssa.Store).Val
-				gs := p.GuardsOf(st)
-				isStk := an.AnyAtom(gs, func(a an.Atom) bool { return an.BoolCall(a, nil, "IsStaking", true) })
-				isBnd := an.AnyAtom(gs, func(a an.Atom) bool { return an.BoolCall(a, nil, "IsBinding", true) })
-				isWarm := an.AnyAtom(gs, func(a an.Atom) bool { return an.BoolCall(a, warm, "", true) })
-				d := p.Desc(sv)
-				switch {
-				case isStk && strings.Contains(d, "PkScript.Maturity("):
-					staking = append(staking, st)
-					sig = append(sig, "IsStaking=>Maturity()")
-				case isBnd && isWarm && d == "global:consensus.MASSIP0002BindingLockedPeriod":
-					binding = append(binding, st)
-					sig = append(sig, "IsBinding&&WarmUp=>MASSIP0002BindingLockedPeriod")
-				case isStk || isBnd:
-					sig = append(sig, "staking/binding=>"+d)
-					c.Fail(sk(f)+":Sequence="+d, "under a staking/binding test the input sequence is set to "+d+", not to the value consensus requires for the lock", posOf(c, st))
-				default:
-					sig = append(sig, "default=>"+d)
-				}
-			}
-			sort.Strings(sig)
-			sigs[sk(f)] = strings.Join(sig, "; ")
-			check := func(kind string, stores []ssa.Instruction) {
-				key := sk(f) + ":" + kind + "-sequence"
-				if len(stores) == 0 {
-					c.Fail(key, "the "+kind+" sequence assignment is missing: a withdrawal built by this path fails the script's CHECKSEQUENCEVERIFY", p.Pos(f.Pos()))
-					return
-				}
-				for _, st := range stores {
-					// no other Sequence store between this one and AddTxIn
-					b := st.Block()
-					idx := 0
-					for i, in := range b.Instrs {
-						if in == st {
-							idx = i + 1
-						}
-					}
-					s := &an.Search{P: p, Fn: f, Cut: cutCalls(p, an.Set(addTxInM)), GoalInstr: func(in ssa.Instruction) bool {
-						s2, ok := in.(*ssa.Store)
-						return ok && in != st && addrRootsAtField(s2.Addr, txin, "Sequence")
-					}}
-					if w := s.Run(b, idx, nil); w != nil {
-						c.Fail(key, "after the "+kind+" sequence is set another store overrides TxIn.Sequence before the input is added (e.g. the lock-time default): the withdrawal is consensus-invalid", posOf(c, st), w...)
-					} else {
-						c.OK(key, "set under the "+kind+" test and final before AddTxIn", posOf(c, st))
-					}
-				}
-			}
-			check("staking", staking)
-			check("binding", binding)
-		}
-		var fs []string
-		for k := range sigs {
-			fs = append(fs, k)
-		}
-		sort.Strings(fs)
-		if len(fs) == 2 {
-			if sigs[fs[0]] == sigs[fs[1]] {
-				c.OK("addTxIn==constructTxIn", "siblings agree: "+sigs[fs[0]], "")
-			} else {
-				c.Fail("addTxIn==constructTxIn", "the automatic and the manual input builders disagree on the sequence rule", "", fs[0]+": "+sigs[fs[0]], fs[1]+": "+sigs[fs[1]])
-			}
-		}
-	}
+	ruleSequenceSiblings(c)
 
 	// ---- (2) history flips -----------------------------------------------------------------------------
 	c.Rule("history-pairing", "credit spent ⇒ history withdrawn; credit un-spent ⇒ history un-withdrawn; each flip deletes the old key and writes the new one; confirmation/rollback move the entry between the pending and the mined history", 8)
@@ -435,4 +355,90 @@ func ruleClassBits(c *report.Ctx) {
 	if rbits["spent"] == 1 {
 		c.OK("credit-flag-byte:spent", "reader decodes bit 0", p.Pos(rd.Pos()))
 	}
+}
+
+// ruleSequenceSiblings (C10, C03): the two input builders give staking/binding inputs the sequence their scripts demand.
+func ruleSequenceSiblings(c *report.Ctx) {
+	p := c.P
+	// ---- (1) sequence siblings ----------------------------------------------------------------------
+	c.Rule("sequence-siblings", "inputs spending a staking credit carry Sequence = script maturity, inputs spending a binding credit after warm-up carry the binding locked period; nothing overrides it before AddTxIn", 4)
+	txin := p.Type(pkgWire, "TxIn")
+	addTxInM := p.Fn(pkgWire, "MsgTx", "AddTxIn")
+	warm := p.Fn("github.com/massnetorg/mass-core/consensus/forks", "", "EnforceMASSIP0002WarmUp")
+	if txin == nil || addTxInM == nil || warm == nil {
+		c.Lost("wire.TxIn / MsgTx.AddTxIn / forks.EnforceMASSIP0002WarmUp")
+	} else {
+		sigs := map[string]string{}
+		for _, spec := range [][2]string{{"WalletManager", "addTxIn"}, {"WalletManager", "constructTxIn"}} {
+			f := fn(c, pkgWallet, spec[0], spec[1])
+			if f == nil {
+				continue
+			}
+			newTxIn := p.Fn(pkgWire, "", "NewTxIn")
+			effs := finalAssignments(p, f, txin, "Sequence", newTxIn, addTxInM)
+			if len(effs) == 0 {
+				c.Fail(sk(f)+":staking-sequence", "no assignment of TxIn.Sequence reaches AddTxIn (anchor lost): a withdrawal built by this path fails the script's CHECKSEQUENCEVERIFY", p.Pos(f.Pos()))
+				continue
+			}
+			is := func(name string, truth bool) func(an.Atom) bool {
+				return func(a an.Atom) bool {
+					if name == "warm" {
+						return an.BoolCall(a, warm, "", truth)
+					}
+					return an.BoolCall(a, nil, name, truth)
+				}
+			}
+			var sig []string
+			okStk, okBnd := false, false
+			for _, e := range effs {
+				d := "the constructor's default"
+				if e.Val != nil {
+					d = p.Desc(e.Val)
+				}
+				isMat := strings.Contains(d, "PkScript.Maturity(")
+				isLocked := d == "global:consensus.MASSIP0002BindingLockedPeriod"
+				stkT, stkF := an.AnyAtom(e.Atoms, is("IsStaking", true)), an.AnyAtom(e.Atoms, is("IsStaking", false))
+				bndT := an.AnyAtom(e.Atoms, is("IsBinding", true))
+				warmT := an.AnyAtom(e.Atoms, is("warm", true))
+				notBndWarm := an.AnyAtom(e.Atoms, func(a an.Atom) bool { return is("IsBinding", false)(a) || is("warm", false)(a) })
+				switch {
+				case isMat && stkT:
+					okStk = true
+					sig = append(sig, "IsStaking=>Maturity()")
+					c.OK(sk(f)+":staking-sequence", "the last value before AddTxIn under the staking test is the script's maturity", posOf(c, e.At))
+				case isLocked && bndT && warmT:
+					okBnd = true
+					sig = append(sig, "IsBinding&&WarmUp=>MASSIP0002BindingLockedPeriod")
+					c.OK(sk(f)+":binding-sequence", "the last value before AddTxIn under the binding-after-warm-up test is the binding locked period", posOf(c, e.At))
+				}
+				if !isMat && !(stkF || bndT) {
+					c.Fail(sk(f)+":staking-sequence", "an input spending a staking credit can reach AddTxIn with Sequence = "+d+" (no path condition excludes a staking script here), not the script's maturity: the withdrawal fails the script's CHECKSEQUENCEVERIFY", posOf(c, e.At), an.AtomTexts(e.Atoms)...)
+				}
+				if !isLocked && !(notBndWarm || stkT) {
+					c.Fail(sk(f)+":binding-sequence", "an input spending a binding credit after warm-up can reach AddTxIn with Sequence = "+d+" (no path condition excludes it), not the binding locked period: the withdrawal is consensus-invalid", posOf(c, e.At), an.AtomTexts(e.Atoms)...)
+				}
+			}
+			if !okStk {
+				c.Fail(sk(f)+":staking-sequence", "the staking sequence assignment is missing: a withdrawal built by this path fails the script's CHECKSEQUENCEVERIFY", p.Pos(f.Pos()))
+			}
+			if !okBnd {
+				c.Fail(sk(f)+":binding-sequence", "the binding sequence assignment is missing: a withdrawal built by this path fails the script's CHECKSEQUENCEVERIFY", p.Pos(f.Pos()))
+			}
+			sort.Strings(sig)
+			sigs[sk(f)] = strings.Join(sig, "; ")
+		}
+		var fs []string
+		for k := range sigs {
+			fs = append(fs, k)
+		}
+		sort.Strings(fs)
+		if len(fs) == 2 {
+			if sigs[fs[0]] == sigs[fs[1]] {
+				c.OK("addTxIn==constructTxIn", "siblings agree: "+sigs[fs[0]], "")
+			} else {
+				c.Fail("addTxIn==constructTxIn", "the automatic and the manual input builders disagree on the sequence rule", "", fs[0]+": "+sigs[fs[0]], fs[1]+": "+sigs[fs[1]])
+			}
+		}
+	}
+
 }
